@@ -64,8 +64,18 @@ EXPLANATION = (
     "ASCII-only or already NFC' - returns on every path unicodedata.normalize('NFC', <the name, possibly decoded>) "
     "(directly, or through a one-argument package function judged the same way) and the name itself only after "
     "isascii(), unicodedata.is_normalized('NFC', .), all(ord(c) < 128 ..) or a passed encode('ascii') said so: any "
-    "other shortcut (no combining marks, short, Latin-1 ..) leaves names un-normalised that NFC rewrites. "
-    "Undecided: JSON and Unicode library behaviour (that unicodedata.normalize('NFC', .) is idempotent and stable), netstring codec itself (covered by its unit tests), AES; which "
+    "other shortcut (no combining marks, short, Latin-1 ..) leaves names un-normalised that NFC rewrites; "
+    "(15) the method create_from_cap hands uri.from_string's result to (found by that role) is interpreted - isinstance "
+    "chains, loops over module-level tables, dicts keyed by type(cap), getattr(self, name) and helper methods alike - on a "
+    "cap of every non-verifier cap class that from_string returns for a well-formed string (the set is enumerated from "
+    "uri.py: BASE_STRING + init_from_string, not declared IVerifierURI): a file cap gives a file node built from that cap "
+    "whose is_mutable() (constant, or the wrapped cap's) and declared I(Im)mutableFileNode interface agree with the cap "
+    "class's is_mutable(); a directory cap (class with INNER_URI_CLASS) gives a DirectoryNode wrapping exactly one file "
+    "node that is right for the INNER_URI_CLASS cap; none gives None / an exception; (16) uri.wrap_dirnode_cap, interpreted on "
+    "the INNER_URI_CLASS cap of every non-verifier directory cap class, constructs that class. "
+    "Undecided: that get_filenode_cap() of a directory cap returns a cap of its INNER_URI_CLASS (taken from the class "
+    "attribute), node constructors' bodies and the node cache / blacklist wrapping in create_from_cap, verify caps (not "
+    "every verifier class has a node type in the current code); JSON and Unicode library behaviour (that unicodedata.normalize('NFC', .) is idempotent and stable), netstring codec itself (covered by its unit tests), AES; which "
     "exception type / message a refusal carries; the contents of the MAC (readers ignore it); the modifiers' own "
     "semantics (must_exist, overwrite, metadata merging - not part of the round trip); whether "
     "_create_and_validate_node raises for a child that recorded an error or leaves it to the caller's "
@@ -77,7 +87,8 @@ EXPLANATION = (
 TECHNIQUE = ("static analysis: writer/reader table agreement over def-use closures, CFG gate rules, constant folding, "
              "truth-table equivalence of predicate methods, exhaustive abstract execution of UnknownNode.__init__, "
              "AST interpretation of uri.from_string over every cap kind and context, must-precede of the key store "
-             "before the initial-contents callable, abstract execution of normalize() over (value tag, NFC-known) states")
+             "before the initial-contents callable, abstract execution of normalize() over (value tag, NFC-known) states, "
+             "AST interpretation of the node factory and wrap_dirnode_cap over every cap class enumerated from uri.py")
 
 DN = "dirnode:DirectoryNode"
 PACK = "dirnode:_pack_normalized_children"
@@ -896,6 +907,151 @@ def implemented_interfaces(ci):
 
 def show_row(row):
     return ", ".join("%s=%s" % (k, row[k]) for k in sorted(row)) or "always"
+
+
+# ---- interpretation of the node factory over cap-class tokens (C19.15 / C19.16) -----------------
+_NF_TAGS = ("cls", "parsed", "unknown", "exc", "fn", "self", "bound", "node", "opaque")
+
+
+def _tagged(v, *tags):
+    return isinstance(v, tuple) and len(v) > 1 and isinstance(v[0], str) and v[0] in (tags or _NF_TAGS)
+
+
+class NodeFactoryEval(CapParseEval):
+    """CapParseEval, extended to run a method of the node maker on a cap token ('parsed', K): `self` is ('self', class);
+    `self.m` / `getattr(self, "m")` is the bound method (interpreted when called, whatever the dispatch looks like: an
+    isinstance chain, a loop over a module-level table, a dict keyed by type(cap)); any other attribute of self is
+    opaque; constructing a class outside allmydata.uri gives ('node', class, arguments); a method of such a node whose
+    every return is `return self` gives the node (its arguments noted); `cap.get_filenode_cap()` of a directory cap
+    class is a cap of its INNER_URI_CLASS; `cap.is_mutable()/is_readonly()` are the class constants.  Anything else
+    -> NotConstant (reported as an analysis error: fail closed)."""
+
+    def __init__(self, folder, module, pe):
+        CapParseEval.__init__(self, folder, module)
+        self.pe = pe
+
+    def _sub(self, fn, args, kwargs):
+        if isinstance(fn.node, ast.Lambda) or fn.node.decorator_list:
+            raise NotConstant("call of %s" % fn.qual)
+        sub = NodeFactoryEval(self.folder, fn.module, self.pe)
+        sub.steps = self.steps
+        try:
+            return sub.call(fn, args, kwargs)
+        finally:
+            self.steps = sub.steps
+
+    def _invoke(self, fn, args, kwargs):
+        return self._sub(fn, args, kwargs)
+
+    def _construct(self, ci, args, kwargs):
+        if ci.module.name == "allmydata.uri" or self._is_exc_class(ci):
+            return CapParseEval._construct(self, ci, args, kwargs)
+        return ("node", ci, tuple(args) + tuple(kwargs.values()))
+
+    def inner_class(self, ci):
+        e = ci.lookup_attr("INNER_URI_CLASS")
+        owner = next((c for c in ci.mro() if "INNER_URI_CLASS" in c.attrs), None)
+        tgt = self.idx.resolve_expr(owner.module, e) if (e is not None and owner is not None) else None
+        return tgt if isinstance(tgt, ClassInfo) else None
+
+    def _cap_method(self, recv, name, args):
+        ci = recv[1]
+        if ci.lookup(name) is None:
+            raise _Raised(("exc", "AttributeError", None))
+        if name == "get_filenode_cap" and not args:
+            inner = self.inner_class(ci)
+            if inner is None:
+                raise NotConstant("%s.get_filenode_cap(): no INNER_URI_CLASS" % ci.name)
+            return ("parsed", inner)
+        if name in ("is_mutable", "is_readonly") and not args:
+            return const_predicate(self.pe, ci, name)
+        raise NotConstant("call of %s.%s" % (ci.name, name))
+
+    def _node_method(self, recv, name, args):
+        m = recv[1].lookup(name)
+        if m is None:
+            raise NotConstant("%s has no method %s" % (recv[1].name, name))
+        rets = reachable_returns(m)
+        me = [a.arg for a in m.node.args.args][:1]
+        if rets and me and all(isinstance(n.ast.value, ast.Name) and n.ast.value.id == me[0] for n in rets):
+            return ("node", recv[1], recv[2] + tuple(args))
+        raise NotConstant("%s.%s() does not simply return the node" % (recv[1].name, name))
+
+    def _args(self, e, env):
+        if any(isinstance(a, ast.Starred) for a in e.args) or any(k.arg is None for k in e.keywords):
+            raise NotConstant("*/** arguments")
+        return [self.expr(a, env) for a in e.args], {k.arg: self.expr(k.value, env) for k in e.keywords}
+
+    def _is_module(self, e):
+        return isinstance(self.idx.resolve_expr(self.module, e), Module)
+
+    def _expr(self, e, env):
+        if isinstance(e, ast.Attribute) and not (isinstance(e.value, ast.Name) and e.value.id in env):
+            tgt = self.idx.resolve_expr(self.module, e)
+            if isinstance(tgt, ClassInfo):
+                return ("cls", tgt)
+            if isinstance(tgt, FuncInfo):
+                return ("fn", tgt)
+        if isinstance(e, ast.Attribute) and not self._is_module(e.value):
+            recv = self.expr(e.value, env)
+            if _tagged(recv, "self"):
+                m = recv[1].lookup(e.attr)
+                return ("bound", m, recv) if m is not None else ("opaque", "self." + e.attr)
+            if _tagged(recv, "parsed") and e.attr == "__class__":
+                return ("cls", recv[1])
+            if _tagged(recv, "node", "opaque", "bound", "parsed"):
+                raise NotConstant("attribute %s" % ast.unparse(e))
+        if isinstance(e, ast.Call):
+            f = e.func
+            if isinstance(f, ast.Name) and f.id not in env and f.id == "getattr" and len(e.args) in (2, 3) \
+                    and not e.keywords:
+                o, nm = self.expr(e.args[0], env), self.expr(e.args[1], env)
+                if _tagged(o, "self") and isinstance(nm, str):
+                    m = o[1].lookup(nm)
+                    if m is not None:
+                        return ("bound", m, o)
+                    if len(e.args) == 3:
+                        return self.expr(e.args[2], env)
+                    raise _Raised(("exc", "AttributeError", None))
+                raise NotConstant("getattr of %s" % ast.unparse(e.args[0]))
+            if isinstance(f, ast.Name) and f.id not in env and f.id == "type" and len(e.args) == 1 and not e.keywords:
+                o = self.expr(e.args[0], env)
+                if _tagged(o, "parsed"):
+                    return ("cls", o[1])
+                raise NotConstant("type() of %s" % ast.unparse(e.args[0]))
+            if isinstance(f, ast.Attribute) and not self._is_module(f.value) and (
+                    (isinstance(f.value, ast.Name) and f.value.id in env)
+                    or not isinstance(self.idx.resolve_expr(self.module, f), (ClassInfo, FuncInfo))):
+                recv = self.expr(f.value, env)
+                if _tagged(recv, "self", "parsed", "node"):
+                    args, kwargs = self._args(e, env)
+                    if recv[0] == "self":
+                        m = recv[1].lookup(f.attr)
+                        if m is None:
+                            raise NotConstant("%s has no method %s" % (recv[1].name, f.attr))
+                        return self._sub(m, [recv] + args, kwargs)
+                    if kwargs:
+                        raise NotConstant("keyword arguments in %s" % ast.unparse(e))
+                    if recv[0] == "parsed":
+                        return self._cap_method(recv, f.attr, args)
+                    return self._node_method(recv, f.attr, args)
+                if _tagged(recv, "opaque", "bound"):
+                    raise NotConstant("call %s" % ast.unparse(f))
+            fv = None
+            if isinstance(f, ast.Name) and f.id in env:
+                fv = env[f.id]
+            elif isinstance(f, (ast.Call, ast.Subscript, ast.IfExp, ast.BoolOp)):
+                fv = self.expr(f, env)
+            if fv is not None:
+                args, kwargs = self._args(e, env)
+                if _tagged(fv, "bound"):
+                    return self._sub(fv[1], [fv[2]] + args, kwargs)
+                if _tagged(fv, "fn"):
+                    return self._sub(fv[1], args, kwargs)
+                if _tagged(fv, "cls"):
+                    return self._construct(fv[1], args, kwargs)
+                raise NotConstant("call %s" % ast.unparse(f))
+        return CapParseEval._expr(self, e, env)
 
 
 def run(ctx: Context):
@@ -2519,3 +2675,176 @@ def run(ctx: Context):
             r.site(used, n.ast, "return")
         for (n, msg, w) in judge(used):
             r.violation(used, used.loc(n.ast if n is not None else None), msg, w)
+
+    # -- 15. every cap kind a directory can hold is made into a node of its kind ---------------------------
+    with ctx.rule("C19.15", "R5", "the node factory create_from_cap applies to uri.from_string's result, interpreted on a cap "
+                  "of every non-verifier cap class from_string can return: a file cap gives a file node built from that cap "
+                  "whose is_mutable() constant is the cap class's, a directory cap gives a DirectoryNode around the file "
+                  "node of its INNER_URI_CLASS cap; none falls through to None (an UnknownNode)", expected=12) as r:
+        cfc = idx.func("nodemaker:NodeMaker.create_from_cap")
+        nmci = cfc.cls
+        fs = idx.func("uri:from_string")
+        umod = fs.module
+        folder = get_folder(idx)
+        cnorm = FlowNorm(cfc)
+        ccfg = cfc.cfg()
+        factories = []
+        for c in calls_in_func(cfc):
+            if not (isinstance(c.func, ast.Attribute) and attr_path(c.func.value) == "self" and c.args):
+                continue
+            a0 = cnorm.resolve(node_of(ccfg, c), c.args[0])
+            if isinstance(a0, ast.Call) and call_tail(a0) == "from_string" \
+                    and idx.resolve_expr(cfc.module, a0.func) is fs:
+                m = nmci.lookup(c.func.attr)
+                if m is None:
+                    raise AnchorVanished("create_from_cap hands the parsed cap to self.%s, which is not a method of %s"
+                                         % (c.func.attr, nmci.name))
+                factories.append(m)
+        factories = list({m.qual: m for m in factories}.values())
+        if len(factories) != 1:
+            raise AnchorVanished("create_from_cap no longer hands uri.from_string(..) to exactly one method of the node "
+                                 "maker (found %d)" % len(factories))
+        fac = factories[0]
+        if len([a.arg for a in fac.node.args.args]) < 2:
+            raise AnchorVanished("%s takes no cap" % short(fac))
+        dnci = idx.cls(DN)
+
+        def make(ci):
+            ev = NodeFactoryEval(folder, fac.module, pe)
+            try:
+                return ev._sub(fac, [("self", nmci), ("parsed", ci)], {})
+            except _Raised as ex:
+                return ex.exc
+            except NotConstant as ex:
+                raise AnalysisError("cannot interpret %s on a %s cap: %s" % (short(fac), ci.name, ex))
+
+        def show(v):
+            if v is None:
+                return "None (create_from_cap then makes an UnknownNode)"
+            if _tagged(v, "node"):
+                return "a %s" % v[1].name
+            if _tagged(v, "exc"):
+                return "the exception %s" % v[1]
+            if _tagged(v, "parsed"):
+                return "the %s cap itself" % v[1].name
+            return "not a node"
+
+        def node_mutable(k, cap_says):
+            """is_mutable() of node class k: its constant, or - when it is exactly <attribute>.is_mutable() of one wrapped
+            object (the cap the node was built from) - what the cap class says."""
+            m = k.lookup("is_mutable")
+            if m is None or len(m.params) != 1:
+                raise AnchorVanished("node class %s has no parameterless is_mutable()" % k.name)
+            lv, rows = pe.rows([lambda env, _m=m: pe.run(k, _m, env)])
+            vals = {vv[0] for (_row, vv) in rows}
+            if RAISES in vals:
+                raise AnalysisError("%s.is_mutable() may raise" % k.name)
+            if not lv and len(vals) == 1:
+                return next(iter(vals))
+            if len(lv) == 1 and lv[0].endswith(".is_mutable()") and all(row[lv[0]] == vv[0] for (row, vv) in rows):
+                return cap_says
+            raise AnalysisError("%s.is_mutable() is neither a constant nor the wrapped cap's is_mutable()" % k.name)
+
+        def judge_file(v, ci):
+            """Problem with `v` as the file node for a cap of class ci, or None."""
+            if not _tagged(v, "node"):
+                return "gives %s" % show(v)
+            if dnci in v[1].mro() or v[1].name == "UnknownNode":
+                return "gives %s instead of a file node" % show(v)
+            if ("parsed", ci) not in [a for a in v[2] if _tagged(a, "parsed")]:
+                return "gives a %s that is not built from the cap" % v[1].name
+            want = const_predicate(pe, ci, "is_mutable")
+            got = node_mutable(v[1], want)
+            if want != got:
+                return "gives a %s, whose is_mutable() is %s while the cap's is %s" % (v[1].name, got, want)
+            ifs = implemented_interfaces(v[1])
+            if ("IMutableFileNode" in ifs and not want) or ("IImmutableFileNode" in ifs and want):
+                return "gives a %s (declared %s) for a cap whose is_mutable() is %s" % (
+                    v[1].name, "IMutableFileNode" if want is False else "IImmutableFileNode", want)
+            return None
+
+        nf = NodeFactoryEval(folder, fac.module, pe)
+        n_kinds = 0
+        for ci in sorted((c for c in idx.classes.values() if c.module is umod), key=lambda c: c.qual):
+            if ci.lookup("init_from_string") is None or ci.lookup_attr("BASE_STRING") is None:
+                continue
+            try:
+                base = folder.class_attr(ci, "BASE_STRING")
+            except NotConstant as ex:
+                raise AnalysisError("cannot fold %s.BASE_STRING: %s" % (ci.name, ex))
+            if not isinstance(base, bytes) or not base:
+                raise AnalysisError("%s.BASE_STRING is not a byte string" % ci.name)
+            n_kinds += 1
+            try:
+                out = CapParseEval(folder, umod).call(fs, [base + b"aaaa"], {"deep_immutable": False})
+            except _Raised:
+                continue                # C19.12 reports a kind from_string refuses
+            except NotConstant as ex:
+                raise AnalysisError("cannot interpret uri.from_string(%r): %s" % (base + b"aaaa", ex))
+            if not (_tagged(out, "parsed") and out[1] is ci):
+                continue                # from_string does not return this class (C19.12's business)
+            if "IVerifierURI" in implemented_interfaces(ci):
+                continue                # verify caps are not what directories hold; not all of them have a node type
+            r.site(fac, None, ci.name)
+            r.count(1)
+            v = make(ci)
+            inner = nf.inner_class(ci)
+            if inner is None:
+                why = judge_file(v, ci)
+            else:
+                if not _tagged(v, "node") or dnci not in v[1].mro():
+                    why = "gives %s instead of a directory node" % show(v)
+                else:
+                    fnodes = [a for a in v[2] if _tagged(a, "node")]
+                    if len(fnodes) != 1:
+                        why = "gives a %s that does not wrap exactly one file node" % v[1].name
+                    else:
+                        why = judge_file(fnodes[0], inner)
+                        if why is not None:
+                            why = "gives a %s whose file node for the inner %s cap is wrong: %s" % (v[1].name, inner.name,
+                                                                                                    why)
+            if why is not None:
+                r.violation(ci.qual, fac.loc(), "%s on a %s cap (%s...) %s: a child linked by such a cap does not come back "
+                            "from the directory as the node that was stored (kind, mutability and caps are lost, and "
+                            "immutable directories judge it by the wrong is_mutable())"
+                            % (short(fac), ci.name, base.decode("ascii", "replace"), why))
+        if not n_kinds:
+            raise AnchorVanished("no cap class with BASE_STRING and init_from_string in allmydata.uri")
+
+    # -- 16. a directory node names itself by the directory cap class of its file node's cap ------------------
+    with ctx.rule("C19.16", "R5", "uri.wrap_dirnode_cap (which gives a DirectoryNode the cap it is stored under), interpreted "
+                  "on the INNER_URI_CLASS cap of every non-verifier directory cap class, gives that directory cap class",
+                  expected=6) as r:
+        wrap = idx.func("uri:wrap_dirnode_cap")
+        dinit = idx.func(DN + ".__init__")
+        if not [c for c in calls_in_func(dinit) if idx.resolve_expr(dinit.module, c.func) is wrap]:
+            raise AnchorVanished("DirectoryNode.__init__ no longer takes its cap from uri.wrap_dirnode_cap")
+        umod = wrap.module
+        folder = get_folder(idx)
+        nf = NodeFactoryEval(folder, umod, pe)
+        by_inner = {}
+        for ci in sorted((c for c in idx.classes.values() if c.module is umod), key=lambda c: c.qual):
+            if ci.lookup("init_from_string") is None or ci.lookup_attr("BASE_STRING") is None:
+                continue
+            inner = nf.inner_class(ci)
+            if inner is None or "IVerifierURI" in implemented_interfaces(ci):
+                continue
+            by_inner.setdefault(inner.qual, []).append(ci)
+            r.site(wrap, None, ci.name)
+            r.count(1)
+            try:
+                out = NodeFactoryEval(folder, umod, pe).call(wrap, [("parsed", inner)], {})
+            except _Raised as ex:
+                out = ex.exc
+            except NotConstant as ex:
+                raise AnalysisError("cannot interpret uri.wrap_dirnode_cap on a %s cap: %s" % (inner.name, ex))
+            if _tagged(out, "parsed") and out[1] is ci:
+                continue
+            if _tagged(out, "parsed") and len(by_inner[inner.qual]) > 1:
+                raise AnalysisError("two directory cap classes share the inner class %s: cannot tell which one "
+                                    "wrap_dirnode_cap should give" % inner.name)
+            what = ("a %s" % out[1].name) if _tagged(out, "parsed") else \
+                ("the exception %s" % out[1]) if _tagged(out, "exc") else "no directory cap"
+            r.violation(ci.qual, wrap.loc(), "uri.wrap_dirnode_cap on a %s cap gives %s instead of a %s: a directory whose "
+                        "file node has such a cap is stored in its parent under the wrong cap (or cannot be made at all), "
+                        "so it does not come back as the same directory" % (inner.name, what, ci.name))
